@@ -303,6 +303,10 @@ pub fn contents_equal(a: (usize, Variant), b: (usize, Variant)) -> bool {
   CONTENT_EQ.with(|m| *m.borrow_mut().entry((a, b)).or_insert_with(|| content(a.0, a.1) == content(b.0, b.1)))
 }
 
+fn contents_equal_states(a: &St, b: &St) -> bool {
+  match (a.resolved(), b.resolved()) { (St::File { size: x, var: vx, .. }, St::File { size: y, var: vy, .. }) => contents_equal((*x, *vx), (*y, *vy)), _ => false }
+}
+
 /// The base file contents of a tier: (size, variant), smallest first.
 pub fn base_file_contents(sizes: &[usize]) -> Vec<(usize, Variant)> {
   let mut out = Vec::new();
@@ -609,6 +613,10 @@ struct Ctx {
   target: PathBuf,
   /// Something may be at the target location.
   target_used: bool,
+  /// Stale-reader phase: change to apply between opening the reader and stamping it (consumed by `stamp_reader`),
+  /// and a harness error raised while applying it.
+  between_open_and_stamp: Option<(Change, St)>,
+  pending_error: Option<String>,
   /// Sibling of the path that receives a file renamed away / hard-linked from the path under an open writer.
   away: PathBuf,
   away_used: bool,
@@ -656,7 +664,7 @@ impl Ctx {
     Ok(Ctx {
       path: dir.join("p"), pie: Pie::default(), tally: Tally::default(), order: (0, 0), ck: None,
       observations: if replay { Some(Vec::new()) } else { None }, content_cache: BTreeMap::new(),
-      pool_dir: dir.to_path_buf(), pool: BTreeMap::new(), at_path: None, target: dir.join("t"), target_used: false, away: dir.join("away"), away_used: false,
+      pool_dir: dir.to_path_buf(), pool: BTreeMap::new(), at_path: None, target: dir.join("t"), target_used: false, away: dir.join("away"), away_used: false, between_open_and_stamp: None, pending_error: None,
     })
   }
 
@@ -706,6 +714,30 @@ impl Ctx {
       self.clear_at(&a)?;
       self.away_used = false;
     }
+    Ok(())
+  }
+
+  /// Changes the path from a plain file state to `s2` while a reader is open on it.
+  fn change_under_reader(&mut self, change: Change, s2: &St) -> H<()> {
+    let (path, away) = (self.path.clone(), self.away.clone());
+    match (change, s2) {
+      (Change::ReplacedByRename, St::File { mt, .. }) => {
+        let bytes = self.content_of(s2);
+        let mut f = io_ctx(File::create(&away), "create replacement", &away)?;
+        io_ctx(f.write_all(&bytes), "write replacement", &away)?;
+        io_ctx(f.set_modified(instant(*mt)), "set_modified (replacement)", &away)?;
+        drop(f);
+        io_ctx(fs::rename(&away, &path), "rename replacement over the path", &away)?;
+      }
+      (Change::MtimeInPlace, St::File { mt, .. }) => {
+        let f = io_ctx(File::options().write(true).open(&path), "open in place", &path)?;
+        io_ctx(f.set_modified(instant(*mt)), "set_modified (in place)", &path)?;
+      }
+      (Change::Removed, St::Absent) => io_ctx(fs::remove_file(&path), "remove under reader", &path)?,
+      _ => return Err(format!("change {:?} does not fit state {:?}", change, s2)),
+    }
+    self.verify_mtime(s2)?;
+    self.count_state(s2);
     Ok(())
   }
 
@@ -872,13 +904,45 @@ enum Unit {
   /// Length-3 sequence; stamps of every earlier state are checked at every later one, all routes, all checkers
   /// (each state is materialised once and observed by the three checkers).
   Seq { states: [St; 3] },
+  /// A reader is opened in file state `s1`, then the path is changed to `s2` (`change`), then the reader is stamped:
+  /// the stamp must describe what the reader observes, i.e. equal the path stamp taken in `s1`.
+  StaleReader { ck: Ck, s1: St, s2: St, change: Change },
 }
 
+/// How the path is changed between opening a reader and stamping it.
+#[derive(Clone, Copy, PartialEq, Eq, Debug)]
+pub enum Change {
+  /// A sibling prepared with the new content and mtime is renamed over the path (atomic replace; new inode).
+  ReplacedByRename,
+  /// Same file, same content: only the mtime is changed in place.
+  MtimeInPlace,
+  /// The file is removed.
+  Removed,
+}
+
+impl Change {
+  fn as_str(self) -> &'static str { match self { Change::ReplacedByRename => "replaced-by-rename", Change::MtimeInPlace => "mtime-changed-in-place", Change::Removed => "removed" } }
+  fn parse(s: &str) -> Option<Change> { [Change::ReplacedByRename, Change::MtimeInPlace, Change::Removed].into_iter().find(|c| c.as_str() == s) }
+}
+
+/// The representative (S1, S2, change) cases of the stale-reader phase.
+pub fn stale_reader_cases() -> Vec<(St, St, Change)> {
+  let f = |size, var, mt| St::File { size, var, mt };
+  vec![
+    (f(8193, Variant::Base, 0), f(8193, Variant::LastDiffers, 1), Change::ReplacedByRename),
+    (f(1, Variant::Base, 0), f(8193, Variant::Base, 1), Change::ReplacedByRename),
+    (f(8193, Variant::Base, 0), f(8193, Variant::Base, 1), Change::MtimeInPlace),
+    (f(8193, Variant::Base, 0), St::Absent, Change::Removed),
+    (f(0, Variant::Base, 0), St::Absent, Change::Removed),
+  ]
+}
+
+const PHASE_STALE_READER: u8 = 4;
 const PHASE_WRITE_OPEN: u8 = 0;
 const PHASE_UNTOUCHED: u8 = 1;
 const PHASE_PAIR: u8 = 2;
 const PHASE_SEQ: u8 = 3;
-const PHASE_NAMES: [&str; 4] = ["write-open", "untouched", "pair", "seq"];
+const PHASE_NAMES: [&str; 5] = ["write-open", "untouched", "pair", "seq", "stale-reader"];
 
 impl Unit {
   fn phase(&self) -> u8 {
@@ -887,6 +951,7 @@ impl Unit {
       Unit::Pair { s2: None, .. } => PHASE_UNTOUCHED,
       Unit::Pair { .. } => PHASE_PAIR,
       Unit::Seq { .. } => PHASE_SEQ,
+      Unit::StaleReader { .. } => PHASE_STALE_READER,
     }
   }
 
@@ -900,6 +965,13 @@ impl Unit {
         m.insert("route".into(), json!("write-open"));
         m.insert("s1".into(), prior.to_json());
         m.insert("s2".into(), Value::Null);
+      }
+      Unit::StaleReader { ck, s1, s2, change } => {
+        m.insert("checker".into(), json!(ck.as_str()));
+        m.insert("route".into(), json!("reader"));
+        m.insert("change_between_open_and_stamp".into(), json!(change.as_str()));
+        m.insert("s1".into(), s1.to_json());
+        m.insert("s2".into(), s2.to_json());
       }
       Unit::Pair { ck, s1, s2, .. } => {
         m.insert("checker".into(), json!(ck.as_str()));
@@ -935,6 +1007,17 @@ impl Unit {
     };
     match phase {
       "write-open" => Ok(Unit::WriteOpen { prior: St::from_json(v.get("s1").ok_or("no s1")?)? }),
+      "stale-reader" => {
+        let change = v.get("change_between_open_and_stamp").and_then(|c| c.as_str()).and_then(Change::parse).ok_or("bad change")?;
+        let (s1, s2) = (St::from_json(v.get("s1").ok_or("no s1")?)?, St::from_json(v.get("s2").ok_or("no s2")?)?);
+        let ok = matches!(s1, St::File { .. }) && match change {
+          Change::ReplacedByRename => matches!(s2, St::File { .. }),
+          Change::MtimeInPlace => matches!(s2, St::File { .. }) && contents_equal_states(&s1, &s2),
+          Change::Removed => s2 == St::Absent,
+        };
+        if !ok { return Err("stale-reader replay: states do not fit the change".into()); }
+        Ok(Unit::StaleReader { ck: ck()?, s1, s2, change })
+      }
       "untouched" => Ok(Unit::Pair { ck: ck()?, s1: St::from_json(v.get("s1").ok_or("no s1")?)?, s2: None, route: route()? }),
       "pair" => Ok(Unit::Pair {
         ck: ck()?, s1: St::from_json(v.get("s1").ok_or("no s1")?)?, s2: Some(St::from_json(v.get("s2").ok_or("no s2")?)?), route: route()?,
@@ -1009,6 +1092,9 @@ fn open_reader(ctx: &mut Ctx, unit: &Unit, st: &St) -> Option<OpenRead> {
 fn stamp_reader<C: ResourceChecker<PathBuf>>(c: &C, ctx: &mut Ctx, unit: &Unit, st: &St) -> Option<C::Stamp> {
   let path = ctx.path.clone();
   let mut reader = open_reader(ctx, unit, st)?;
+  if let Some((change, s2)) = ctx.between_open_and_stamp.take() {
+    if let Err(e) = ctx.change_under_reader(change, &s2) { ctx.pending_error = Some(e); return None; }
+  }
   let r = guard(|| c.stamp_reader(&path, &mut reader));
   let stamp = settle(ctx, unit, Some(Route::Reader), "stamp_reader", st, r)?;
   ctx.observe(|| format!("stamp_reader in {} = {:?}", st.to_json(), stamp));
@@ -1297,6 +1383,33 @@ fn run_seq(ctx: &mut Ctx, unit: &Unit, states: &[St; 3]) -> H<()> {
   Ok(())
 }
 
+/// Stale reader: path stamp in `s1`; reader opened in `s1`; path changed to `s2`; `stamp_reader`. Oracle
+/// `C13/reader-stamp-is-reader-state`: the reader stamp equals the path stamp taken in `s1` (existence, mtime and
+/// content of what the reader observes); the reader still yields `s1`'s full content from offset 0.
+fn run_stale_reader<C>(c: &C, ck: Ck, ctx: &mut Ctx, unit: &Unit, s1: &St, s2: &St, change: Change) -> H<()>
+where C: ResourceChecker<PathBuf>, C::Stamp: PartialEq {
+  ctx.ck = Some(ck);
+  ctx.materialise(s1)?;
+  let sp = stamp_path(c, ctx, unit, s1);
+  ctx.between_open_and_stamp = Some((change, s2.clone()));
+  let sr = stamp_reader(c, ctx, unit, s1);
+  ctx.between_open_and_stamp = None;
+  if let Some(e) = ctx.pending_error.take() { return Err(e); }
+  if let (Some(a), Some(b)) = (&sp, &sr) {
+    ctx.tally.eval("C13/reader-stamp-is-reader-state");
+    ctx.tally.judged += 1;
+    ctx.tally.nontrivial += 1;
+    let observed = format!("{:?}", b);
+    ctx.observe(|| format!("stale reader ({}): path stamp in s1 {:?}, reader stamp {}", change.as_str(), a, observed));
+    if a != b {
+      let what = format!("{}: reader opened in {}, then path {} -> {}, then stamp_reader gives {:?}; the reader observes the state stamped {:?}",
+        ck.as_str(), s1.to_json(), change.as_str(), s2.to_json(), b, a);
+      ctx.finding("C13/reader-stamp-is-reader-state", what, unit.replay(ctx.ck, Some(Route::Reader), None, &format!("{:?}", a), &observed));
+    }
+  }
+  Ok(())
+}
+
 /// `Resource::write` on a prior state: creates / truncates (handle readable and writable) / refuses a directory.
 fn run_write_open(ctx: &mut Ctx, unit: &Unit, prior: &St) -> H<()> {
   ctx.ck = None;
@@ -1373,6 +1486,11 @@ fn run_write_open(ctx: &mut Ctx, unit: &Unit, prior: &St) -> H<()> {
 fn run_unit(ctx: &mut Ctx, unit: &Unit) -> H<()> {
   match unit {
     Unit::WriteOpen { prior } => run_write_open(ctx, unit, prior),
+    Unit::StaleReader { ck, s1, s2, change } => match ck {
+      Ck::Exists => run_stale_reader(&ExistsChecker, *ck, ctx, unit, s1, s2, *change),
+      Ck::Modified => run_stale_reader(&ModifiedChecker, *ck, ctx, unit, s1, s2, *change),
+      Ck::Hash => run_stale_reader(&HashChecker, *ck, ctx, unit, s1, s2, *change),
+    },
     Unit::Pair { ck, s1, s2, route } => match ck {
       Ck::Exists => run_pair(&ExistsChecker, *ck, ctx, unit, s1, s2.as_ref(), *route),
       Ck::Modified => run_pair(&ModifiedChecker, *ck, ctx, unit, s1, s2.as_ref(), *route),
@@ -1562,6 +1680,22 @@ fn run_enumeration(args: &Args, root: &Path) -> i32 {
   rep.max_violations = 12;
   let sets = name_sets();
   let (extra, names_skipped) = match probe_names(root) { Ok(x) => x, Err(e) => fail(root, &format!("C13 name probe: {}", e)) };
+  let (stale_tally, stale_units) = {
+    let run = || -> H<(Tally, usize)> {
+      let mut ctx = Ctx::new(&root.join("stale"), false)?;
+      let mut n = 0;
+      for (k, (s1, s2, change)) in stale_reader_cases().into_iter().enumerate() {
+        for (j, ck) in Ck::ALL.into_iter().enumerate() {
+          ctx.order = (PHASE_STALE_READER as u64, (k * 3 + j) as u64);
+          run_unit(&mut ctx, &Unit::StaleReader { ck, s1: s1.clone(), s2: s2.clone(), change })?;
+          n += 1;
+        }
+      }
+      ctx.clear()?;
+      Ok((ctx.tally, n))
+    };
+    match run() { Ok(x) => x, Err(e) => fail(root, &format!("C13 stale-reader phase: {}", e)) }
+  };
   let replaced_probe = match probe_replaced_under_writer(root) { Ok(v) => v, Err(e) => fail(root, &format!("C13 replaced-under-writer probe: {}", e)) };
   let extra_only: Vec<Name> = extra.iter().map(|(n, _)| n.clone()).collect();
   let extra_sets = extra_name_sets(&extra_only);
@@ -1593,6 +1727,7 @@ fn run_enumeration(args: &Args, root: &Path) -> i32 {
   let error: Mutex<Option<String>> = Mutex::new(None);
   let start = Instant::now();
   let mut total = Tally::default();
+  total.merge(stale_tally);
 
   let results: Vec<Result<Tally, String>> = std::thread::scope(|scope| {
     let handles: Vec<_> = (0..threads).map(|w| {
@@ -1676,6 +1811,11 @@ fn run_enumeration(args: &Args, root: &Path) -> i32 {
   rep.set("future_mtime_states", json!({
     "what": "third logical mtime T_FUTURE = start of the run + 1 day (whole seconds), set explicitly like T1 / T2; oracle as for T1 / T2 (the stamp is the mtime: untouched => consistent, different mtime => inconsistent). Base states: write-open, untouched, every ordered pair with every plain base / symlink / future state under all three checkers and routes.",
     "states": futures.iter().map(|f| f.to_json()).collect::<Vec<_>>(), "T_FUTURE_unix_s": future_secs(),
+  }));
+  rep.set("stale_reader_phase", json!({
+    "what": "reader opened in file state S1, then the path is changed to S2 (replaced by rename of a prepared sibling / mtime changed in place / removed), then stamp_reader; for all three checkers the reader stamp must equal the path stamp taken in S1 (the reader observes S1: its metadata, its existence, its content through the open handle) and the reader must still yield S1's full content",
+    "cases": stale_reader_cases().iter().map(|(a, b, c)| json!({"s1": a.to_json(), "s2": b.to_json(), "change": c.as_str()})).collect::<Vec<_>>(),
+    "units_run": stale_units,
   }));
   rep.set("absent_under_open_writer", json!("the Absent state is reached under an open pie writer in three ways, each a route of its own for every checker (untouched, every pair with Absent as S1, sequences): remove_file(path); rename(path, sibling); hard_link(path, sibling) + remove_file(path). Oracle for all three: the writer stamp equals the path stamp of the absent path."));
   rep.set("path_replaced_under_open_writer_recorded_not_judged", replaced_probe);
